@@ -872,13 +872,14 @@ async fn handler_writers(req: &mut Req<'_>, st: &mut HState) -> io::Result<ExitS
     if with_reader { st.probe("reader_subtask"); }
     let rworld = world.clone();
     let active = st.active;
-    let reader_reads = st.range(1, 6);
+    let reader_reads = if st.chance(1, 2) { st.range(1, 6) } else { st.range(6, 30) };
+    let reader_len = st.range(1, 48);
     let req_ref = &mut *req;
     if with_reader {
         futs.push(Box::pin(async move {
             let mut stl = HState { final_reached: false, world: rworld, idx, mode: HandlerMode::Writers, active, streams: role_streams(u16::from(req_ref.role())), propagate: true };
             for _ in 0..reader_reads {
-                let n = h_read(req_ref, &mut stl, 16).await?;
+                let n = h_read(req_ref, &mut stl, reader_len).await?;
                 if n == 0 { break; }
             }
             Ok(())
